@@ -109,9 +109,9 @@ PROPS = {
         "Trusted: Lean kernel, model tie.",
         ["parse", "compile", "find-c19"], RULE_PROG),
     "C20": _p(
-        "Theorems: append concatenates code and data and re-bases exactly the appended fragment's symbols and references; local labels of different fragments stay disjoint; a reference is patched to the address recorded for its LINE NUMBER (sorted symbol table), independent of position. K: compiled programs equal op for op. F: metamorphic layout relation on the real interpreter (REM lines inserted, empty statements, unreachable lines: identical transcript), direct statement list = one-line program, independent of the program in memory.",
+        "Theorems layout_invariance / layout_invariance_fields / layout_invariance_step / _slice (Thm/C20Layout.lean): inserting a code-less line (REM, ' or blank: rem_line_codeless) before any other line of a listing leaves ops, data, diagnostics and directAddress of the compiled program identical and adds exactly one symbol pointing at the next line's code, and the VM takes the same steps (trace output and error line numbers included); appended after the LAST line it either changes nothing but the entry or adds one unreachable End (stated exactly, three cases); empty statements produce no code; branch_targets_inside_program: every symbol address the linker patches from lies strictly below directAddress, i.e. no branch can fall into the direct statement's code (fix D20). Theorems: append concatenates code and data and re-bases exactly the appended fragment's symbols and references; local labels of different fragments stay disjoint; a reference is patched to the address recorded for its LINE NUMBER (sorted symbol table), independent of position. K: compiled programs equal op for op. F: metamorphic layout relation on the real interpreter (REM lines inserted, empty statements, unreachable lines: identical transcript), direct statement list = one-line program, independent of the program in memory.",
         "Partial: layout_invariance as a theorem is a target; the relation is evaluated on the implementation.",
-        ["compile", "find-c20"], RULE_PROG, partial="layout_invariance theorem not proved"),
+        ["compile", "find-c20"], RULE_PROG, partial="layout invariance for lines that DO generate unreachable code is explored, not proved; the append-at-end theorems assume an error-free listing"),
     "C08": {
         "level_text": "Lean theorems over all 2^16 (unary) / 2^32 (binary) Integer operands: +,-,*,\\,MOD,^,unary minus,ABS return the exact result over Int or OVERFLOW / DIVISION BY ZERO, never a fault; float->Integer is exactly floor-or-OVERFLOW on the decoded bit pattern. The model is tied to /repo by exhaustive (unary) and boundary+random (binary) differential runs, and Spec.intBin is evaluated against the implementation as finder.",
         "level_note": "Trusted: Lean kernel; axioms propext/Classical.choice/Quot.sound only; Model/Std.lean's reading of Rust's checked_* ops; the correspondence harness. Float arithmetic itself is not involved (integer decoding of bit patterns).",
